@@ -65,7 +65,8 @@ def strategy_(draw, tier):
             "uid_state": draw(st.sampled_from(["absent", "absent", "dir", "file"])),
             "alt": draw(st.sampled_from(["absent", "absent", "dir", "file", "link_other"])),
             "hometrash": draw(st.sampled_from(["absent", "absent", "exists", "link_other"])),
-            "xdg": draw(st.sampled_from(["unset", "unset", "unset", "empty", "custom", "othervol"])),
+            "xdg": draw(st.sampled_from(["unset", "unset", "unset", "empty", "custom", "othervol", "custom_slash"])),
+            "home_slash": draw(st.integers(0, 5)) == 0,
             "home_set": draw(st.integers(0, 9)) != 0,
             "opt": draw(st.sampled_from(["none", "none", "none", "trash_dir_same", "trash_dir_other",
                                          "trash_dir_link", "fallback_both", "fallback_flag_only",
@@ -111,6 +112,9 @@ def decide(snap, vols, env, uid, fvol, opt_dir, fallback_both):
         home = env["XDG_DATA_HOME"] + "/Trash"
     elif env.get("HOME") is not None:
         home = env["HOME"] + "/.local/share/Trash"
+    if home is not None:
+        import posixpath
+        home = posixpath.normpath(home)
     if home is not None and vol_of(snap, vols, home) == fvol and usable_dir(home):
         return home, False
     top = fvol.rstrip("/") + "/.Trash"
@@ -137,18 +141,20 @@ def run_case(case):
     other = [v for v in allv if v != fvol]
     env = {}
     if case["home_set"]:
-        env["HOME"] = home
+        env["HOME"] = home + ("/" if case.get("home_slash") else "")
     nodes = []
     xdg = case["xdg"]
     if xdg == "empty":
         env["XDG_DATA_HOME"] = ""
     elif xdg == "custom":
         env["XDG_DATA_HOME"] = home + "/my xdg"
+    elif xdg == "custom_slash":
+        env["XDG_DATA_HOME"] = home + "/my xdg/"
     elif xdg == "othervol" and other:
         env["XDG_DATA_HOME"] = other[0].rstrip("/") + "/xdg-here"
     ht = None
     if env.get("XDG_DATA_HOME"):
-        ht = env["XDG_DATA_HOME"] + "/Trash"
+        ht = env["XDG_DATA_HOME"].rstrip("/") + "/Trash"
     elif "HOME" in env:
         ht = home + "/.local/share/Trash"
     if ht is not None:
